@@ -27,15 +27,28 @@ func (l *LQueue[T]) Enqueue(item T) {
 	l.mu.Lock()
 	defer l.mu.Unlock()
 
+	if l.n == 0 {
+		// The underlying list cannot be empty: once the queue has been drained
+		// or cleared it still holds a stale head node. Start over with a fresh list.
+		l.list = list.InitDList(item)
+		l.n = 1
+		return
+	}
+
 	l.n++
 	l.list.Append(item)
 }
 
 // Dequeue retrieves and removes the first element from the queue.
 // The queue size will be decreased by one.
+// In case the queue is empty it returns the zero value and leaves the queue untouched.
 func (l *LQueue[T]) Dequeue() (item T) {
 	l.mu.Lock()
 	defer l.mu.Unlock()
+
+	if l.n == 0 {
+		return
+	}
 
 	node := l.list.Shift()
 	l.n--
@@ -43,9 +56,15 @@ func (l *LQueue[T]) Dequeue() (item T) {
 }
 
 // Peek returns the first element of the queue. It does not remove it.
+// In case the queue is empty it returns the zero value.
 func (l *LQueue[T]) Peek() T {
 	l.mu.RLock()
 	defer l.mu.RUnlock()
+
+	if l.n == 0 {
+		var zero T
+		return zero
+	}
 
 	return l.list.First()
 }
@@ -54,6 +73,10 @@ func (l *LQueue[T]) Peek() T {
 func (l *LQueue[T]) Search(item T) bool {
 	l.mu.Lock()
 	defer l.mu.Unlock()
+
+	if l.n == 0 {
+		return false
+	}
 
 	if _, ok := l.list.Find(item); ok {
 		return true
